@@ -46,6 +46,7 @@ def shards(tier, seed):
     sh += [("reqpath",), ("ports",), ("symbols",), ("epathopts",)]
     sh += [("tags", i) for i in range(16)]
     sh += [("route-history", i) for i in range(3)]
+    sh += [("upload-paths", pn, pers) for pn in ("P3", "P4", "P2") for pers in ("v20", "v32")]
     return sh
 
 
@@ -307,6 +308,52 @@ def check_tags(rep, part, tier):
             rep.sample({"tag": tag, "mode": mode, "path": r[1].hex()})
 
 
+def check_upload_paths(rep, pn, pers):
+    """The request paths of a whole tag-list / template upload, as parsed by the target's strict parser, denote objects of
+    the project: symbol class (optionally inside 'Program:<name>' for every program of the project, names of odd and even
+    length) and template instances that exist."""
+    import pycomm3
+    from vmc.ref import logix, net, projgen
+    from .harness import call, make_target
+
+    proj = projgen.build(pn, 0)
+    progs = {t.name for t in proj.symbols if t.kind == "program"}
+    tids = set(proj.types)
+    ctl = logix.LogixController(proj, pers)
+    t = make_target(ctl)
+    with net.World(t, io_budget=10**8):
+        d = pycomm3.LogixDriver("10.0.0.1")
+        n_ev = len(t.events)
+        o = call(d.open)
+        asked = set()
+        for e in t.cip_log:
+            path = [tuple(x) for x in e["path"]]
+            svc = e["service"]
+            bad = None
+            if svc == 0x55:
+                scope = [x for x in path if x[0] == "symbol"]
+                rest = [x for x in path if x[0] != "symbol"]
+                if len(scope) > 1 or (scope and path[0] != scope[0]) or (scope and scope[0][1] not in progs):
+                    bad = f"scope {scope!r} is not a program of the project {sorted(progs)}"
+                elif len(rest) != 2 or rest[0] != ("class", 0x6B) or rest[1][0] != "instance":
+                    bad = "not an instance of the symbol class"
+                asked.add(scope[0][1] if scope else None)
+            elif path[:1] == [("class", 0x6C)]:
+                if len(path) != 2 or path[1][0] != "instance" or path[1][1] not in tids:
+                    bad = f"template instance {path[1:]!r} does not exist"
+            rep.case(("upload-path", pn, pers, svc, tuple(path)), outcome="ok" if not bad else "bad")
+            if bad:
+                rep.violation("upload/request-path", f"{pn}/{pers}: service {svc:#04x} path {path!r} (raw {e['raw_path'].hex()}): {bad}", {"kind": "upload-paths", "project": pn, "pers": pers})
+        for tag, detail in t.events[n_ev:]:
+            if tag.startswith("C09"):
+                rep.violation("upload/target-flagged", f"{pn}/{pers}: {tag}: {detail}", {"kind": "upload-paths", "project": pn, "pers": pers})
+        missing = (progs | {None}) - asked
+        if o != ("ok", True) or missing:
+            rep.violation("upload/scope-not-addressed", f"{pn}/{pers}: open() -> {o!r:.80}; scopes never addressed: {sorted(map(str, missing))}", {"kind": "upload-paths", "project": pn, "pers": pers})
+        call(d.close)
+    rep.sample({"upload_paths": pn, "personality": pers, "programs": sorted(progs)})
+
+
 def run_shard(shard, tier, seed):
     rep = Report()
     k = shard[0]
@@ -326,6 +373,8 @@ def run_shard(shard, tier, seed):
         check_epathopts(rep)
     elif k == "tags":
         check_tags(rep, shard[1], tier)
+    elif k == "upload-paths":
+        check_upload_paths(rep, shard[1], shard[2])
     elif k == "route-history":
         # emitted routes (Unconnected Send route path, Forward Open connection path) on a live driver must denote the
         # configured route whatever helper calls came before: C14's history exploration, path observations only
@@ -350,6 +399,8 @@ def replay(r):
         check_logical(rep, r["ltype"], [v] if k == "logical" else [], forms=(r.get("form", "int"),))
     elif k == "route-history":
         rep = run_shard(("route-history", r["shard"]), "quick", 0)
+    elif k == "upload-paths":
+        check_upload_paths(rep, r["project"], r["pers"])
     elif k == "reqpath":
         check_reqpath(rep)
     elif k in ("port", "bigport", "badlink", "badport"):
